@@ -56,6 +56,7 @@ DisconnectIn(G, p) == [g \in DOMAIN G |-> IF G[g].ex THEN RemoveIn(G[g], p, TRUE
 
 \* the property, as predicates over one group's observed lists
 ListsDisjoint(conn, kept, known) == conn \cap kept = {} /\ conn \cap known = {} /\ kept \cap known = {}
+\* (nbrs: the current neighbours plus those whose disconnect notification has not been handled yet)
 ConnectedAreNeighbours(conn, nbrs) == conn \subseteq nbrs
 
 CONSTANTS Peer,       \* the other nodes, as seen from the node under consideration
@@ -63,43 +64,47 @@ CONSTANTS Peer,       \* the other nodes, as seen from the node under considerat
           MaxKnown,   \* prune threshold of the known list (maxKnownPeers)
           HsDirs      \* handshake directions distinguished ("in": HandshakeIncoming, "out": Handshake); same transition
 
-VARIABLES nbr,        \* direct neighbours
+VARIABLES nbr,        \* direct neighbours (what the route table answers to IsNeighbor)
+          pend,       \* peers that stopped being neighbours and whose "disconnected" peer-state event is still queued
           grp,        \* Group -> group
           ann,        \* Peer -> groups announced in the peer's last handshake (peerGroups)
           mlast
-mvars == <<nbr, grp, ann, mlast>>
+mvars == <<nbr, pend, grp, ann, mlast>>
 
-MInit == /\ nbr = {} /\ grp = [g \in Group |-> NoGroup] /\ ann = [p \in Peer |-> {}]
+MInit == /\ nbr = {} /\ pend = {} /\ grp = [g \in Group |-> NoGroup] /\ ann = [p \in Peer |-> {}]
          /\ mlast = [op |-> "init"]
 
-Connect(p) == /\ p \notin nbr /\ nbr' = nbr \cup {p} /\ UNCHANGED <<grp, ann>>
+Connect(p) == /\ p \notin nbr /\ nbr' = nbr \cup {p} /\ UNCHANGED <<pend, grp, ann>>
               /\ mlast' = [op |-> "connect", p |-> p]
 
-\* the neighbour goes away and the peer-state event is processed
-Disconnect(p) == /\ p \in nbr /\ nbr' = nbr \ {p} /\ grp' = DisconnectIn(grp, p) /\ UNCHANGED ann
-                 /\ mlast' = [op |-> "disconnect", p |-> p]
+\* the neighbour goes away: the route table says so at once, the peer-state event is only queued ...
+NbrDown(p) == /\ p \in nbr /\ nbr' = nbr \ {p} /\ pend' = pend \cup {p} /\ UNCHANGED <<grp, ann>>
+              /\ mlast' = [op |-> "nbrdown", p |-> p]
+\* ... and handled later (any other step may come in between)
+DisconnectEvent(p) == /\ p \in pend /\ pend' = pend \ {p} /\ grp' = DisconnectIn(grp, p) /\ UNCHANGED <<nbr, ann>>
+                      /\ mlast' = [op |-> "event", p |-> p]
 
-Notify(p, join, gs) == /\ grp' = NotifyIn(grp, p, join, gs, p \in nbr) /\ UNCHANGED <<nbr, ann>>
+Notify(p, join, gs) == /\ grp' = NotifyIn(grp, p, join, gs, p \in nbr) /\ UNCHANGED <<nbr, pend, ann>>
                        /\ mlast' = [op |-> "notify", p |-> p, join |-> join, gs |-> gs]
 
 \* a handshake with p in either direction (dir = "in": HandshakeIncoming, "out": Handshake)
 Handshake(p, gs, dir) == /\ grp' = HandshakeIn(grp, ann[p], p, gs, p \in nbr)
-                         /\ ann' = [ann EXCEPT ![p] = gs] /\ UNCHANGED nbr
+                         /\ ann' = [ann EXCEPT ![p] = gs] /\ UNCHANGED <<nbr, pend>>
                          /\ mlast' = [op |-> "handshake", p |-> p, gs |-> gs, dir |-> dir]
 
 \* the bare transitions (reached by configuration, discovery, failed keep-alive handshakes)
-Add(g, p, keep) == /\ grp' = [grp EXCEPT ![g] = AddIn(@, p, keep, p \in nbr)] /\ UNCHANGED <<nbr, ann>>
+Add(g, p, keep) == /\ grp' = [grp EXCEPT ![g] = AddIn(@, p, keep, p \in nbr)] /\ UNCHANGED <<nbr, pend, ann>>
                    /\ mlast' = [op |-> "add", g |-> g, p |-> p, keep |-> keep]
-Remove(g, p, into) == /\ grp' = [grp EXCEPT ![g] = RemoveIn(@, p, into)] /\ UNCHANGED <<nbr, ann>>
+Remove(g, p, into) == /\ grp' = [grp EXCEPT ![g] = RemoveIn(@, p, into)] /\ UNCHANGED <<nbr, pend, ann>>
                       /\ mlast' = [op |-> "remove", g |-> g, p |-> p, into |-> into]
 Prune(g) == /\ grp[g].ex
             /\ \E K \in SUBSET grp[g].known :
                   /\ PruneOK(grp[g], [grp[g] EXCEPT !.known = K], MaxKnown)
                   /\ grp' = [grp EXCEPT ![g].known = K]
-            /\ UNCHANGED <<nbr, ann>>
+            /\ UNCHANGED <<nbr, pend, ann>>
             /\ mlast' = [op |-> "prune", g |-> g]
 
-MNext == \/ \E p \in Peer : Connect(p) \/ Disconnect(p)
+MNext == \/ \E p \in Peer : Connect(p) \/ NbrDown(p) \/ DisconnectEvent(p)
          \/ \E p \in Peer, gs \in SUBSET Group, j \in BOOLEAN : gs # {} /\ Notify(p, j, gs)
          \/ \E p \in Peer, gs \in SUBSET Group, d \in HsDirs : Handshake(p, gs, d)
          \/ \E g \in Group, p \in Peer, b \in BOOLEAN : Add(g, p, b) \/ Remove(g, p, b)
@@ -108,7 +113,7 @@ MNext == \/ \E p \in Peer : Connect(p) \/ Disconnect(p)
 
 \* C38, first sentence
 MembershipOK == \A g \in Group : /\ ListsDisjoint(grp[g].conn, grp[g].kept, grp[g].known)
-                                 /\ ConnectedAreNeighbours(grp[g].conn, nbr)
+                                 /\ ConnectedAreNeighbours(grp[g].conn, nbr \cup pend)
 KnownBounded == [][mlast'.op = "prune" => Cardinality(grp'[mlast'.g].known) <= MaxKnown]_mvars
 
 (***************************************************************************)
@@ -215,7 +220,7 @@ FNext == \/ \E n \in FNode : Originate(n) \/ WindowExpire(n)
          \/ FDeliver
          \/ FLose
 
-MIdle == nbr = {} /\ grp = <<>> /\ ann = <<>> /\ mlast = [op |-> "idle"]
+MIdle == nbr = {} /\ pend = {} /\ grp = <<>> /\ ann = <<>> /\ mlast = [op |-> "idle"]
 FSpec == FInit /\ MIdle /\ [][FNext /\ UNCHANGED mvars]_<<mvars, fvars>>
 FFairSpec == FSpec /\ WF_<<mvars, fvars>>(FDeliver /\ UNCHANGED mvars)
 
